@@ -14,7 +14,7 @@ LEVEL = "model_checking"
 def run(chk):
     thorough = chk.tier == "thorough"
     chk.assumptions += ["a blocked acquisition is modelled as a disabled step: schedules never park a thread inside a contended RwLock",
-                        "schedule points only at the hooks plock.got_entry / plock.unlocked (and call boundaries)",
+                        "schedule points only at the hooks plock.got_entry / plock.unlocked (and call boundaries); what lies between them is reached only by the real-race rounds (nondeterministic)",
                         "one page lock per thread at a time (page_write_multi is not modelled)"]
     vlib.build_harness(); chk.mark("build")
     mc = vlib.run_tlc("MC_PageLocks.tla", os.path.join(vlib.SPEC, "MC_PageLocks.cfg"), coverage=True, timeout=1500)
@@ -62,7 +62,27 @@ def run(chk):
                 chk.violation("acquisition_never_succeeds", rep)
             else:
                 chk.stale.append("%s at step %s of %s: %s" % (pr["kind"], pr.get("step"), sched, json.dumps(pr)))
+    # real races: MutexW / MutexRW of PageLocks.tla monitored on a shadow state while real threads hammer one hot page (the
+    # interleavings the hooks cannot reach: inside a region without a schedule point). Several short rounds.
+    stress = {"rounds": 0, "acquisitions": 0, "two_writers": 0, "writer_with_reader": 0, "entries_left": 0}
+    for rnd in range(6 if thorough else 3):
+        sp = vlib.scratch() + "/plstress_%d.json" % rnd
+        vlib.run_vh(["plock-stress", "--ms", 8000 if thorough else 2500, "--writers", 2, "--readers", 3 + rnd % 2, "--others", 2, "--out", sp], timeout=600)
+        r = json.load(open(sp))
+        stress["rounds"] += 1
+        for k in ("acquisitions", "two_writers", "writer_with_reader", "entries_left"):
+            stress[k] += r[k]
+        if r["two_writers"] or r["writer_with_reader"]:
+            chk.violation("exclusion_violated_under_real_races:%s" % ("w+w" if r["two_writers"] else "w+r"), {"stress": r, "how": "harness plock-stress (nondeterministic; re-run to reproduce)"})
+            break
+        if r["entries_left"]:
+            chk.violation("tables_not_empty_when_idle_after_real_races", {"stress": r})
+            break
+    if stress["acquisitions"] < 100000:
+        raise vlib.ToolError("the stress rounds made only %d acquisitions" % stress["acquisitions"])
+    chk.mark("stress")
     chk.cov = {
+        "real_race_rounds": stress,
         "states": mc["stats"]["distinct"], "transitions": mc["stats"]["generated"],
         "traces_validated_against_impl": len(res), "schedules_generated_by_tlc": total, "schedules_replayed": len(cases),
         "schedules_followed_exactly": ok, "problem_kinds": kinds,
